@@ -191,3 +191,106 @@ def gen_wc(rng, tier):
         inten = [x + rng.choice([0, 0.5, 0.25]) for x in inten]
     return dict(pts=pts, sep=list(sep) if isinstance(sep, tuple) else sep, intensity=inten,
                 as_frame=rng.random() < 0.5)
+
+
+# ------------------------------------- anisotropic static error (all ep columns)
+ANISO_SETUPS = [
+    dict(diameter=(9, 11)), dict(diameter=(11, 9)), dict(diameter=(5, 7)), dict(diameter=(7, 5)),
+    dict(diameter=9, noise_size=(1, 1.5)), dict(diameter=7, noise_size=(1, 1.5)),
+    dict(diameter=5, noise_size=(1.5, 1)), dict(diameter=(5, 7), noise_size=(1, 1.5)),
+]
+
+
+def gen_aniso(rng):
+    """2-D images on which features are DARKER than the measured background, with a
+    parameter set that takes _static_error's anisotropic branch (unequal diameter or
+    anisotropic noise_size).  returns (array, description, kwargs)
+
+    'plateau': a bright flat plateau (bandpass returns ~0 inside it, so its raw pixels
+    are what measure_noise calls background: a high black level) with dim blobs next
+    to it; 'texture': plain noise."""
+    rs = np.random.RandomState(rng.randrange(2 ** 31))
+    shape = (rng.randint(44, 64), rng.randint(44, 64))
+    kind = rng.choice(['plateau', 'plateau', 'plateau_noisy', 'texture', 'texture_dark'])
+    if kind == 'texture':
+        im = rs.randint(0, 256, shape).astype(np.uint8)
+    elif kind == 'texture_dark':                              # sparse texture: zero regions exist without bandpass
+        im = (rs.randint(0, 256, shape) * (rs.rand(*shape) < 0.15)).astype(np.uint8)
+    else:
+        im = np.zeros(shape, dtype=float)
+        # plateau covering a band / a corner block
+        lvl = rng.choice([120., 180., 230.])
+        if rng.random() < 0.5:
+            a = rng.randint(shape[0] // 3, shape[0] // 2)
+            im[:a, :] = lvl
+            free = (a + 8, shape[0] - 8, 8, shape[1] - 8)
+        else:
+            a = rng.randint(shape[1] // 3, shape[1] // 2)
+            im[:, :a] = lvl
+            free = (8, shape[0] - 8, a + 8, shape[1] - 8)
+        nb = rng.randint(2, 5)
+        centers = [(rng.uniform(free[0], max(free[0] + 1, free[1])), rng.uniform(free[2], max(free[2] + 1, free[3])))
+                   for _ in range(nb)]
+        amps = [rng.uniform(15, 70) for _ in range(nb)]           # dim: far below the plateau
+        im = im + _blobs(rs, shape, centers, amps, (rng.choice([1.5, 2.0, 2.5]),) * 2)
+        if kind == 'plateau_noisy':
+            im = im + rs.uniform(0, rng.choice([3, 8]), shape)
+        im = np.clip(im, 0, 255).astype(np.uint8)
+    kw = dict(rng.choice(ANISO_SETUPS))
+    kw['preprocess'] = (rng.random() < 0.75) if not kind.startswith('texture_dark') else (rng.random() < 0.4)
+    kw['percentile'] = rng.choice([0, 20, 64])
+    if rng.random() < 0.3:
+        dt = kw['diameter'] if isinstance(kw['diameter'], tuple) else (kw['diameter'],) * 2
+        kw['separation'] = rng.choice([None, float(max(dt)) - 2, tuple(float(x) for x in dt)])
+        if kw['separation'] is None:
+            del kw['separation']
+    if rng.random() < 0.2:
+        kw['engine'] = rng.choice(['python', 'numba'])
+    return im, 'aniso-' + kind, kw
+
+
+class ArrFeatures:
+    """the smallest 'features' object static_error accepts that hands it an ndarray
+    mass (what locate hands _static_error); used for the 2-D branch, which raises on a
+    pandas >= 2 Series (N_S[:, np.newaxis])"""
+    def __init__(self, mass):
+        import pandas as pd
+        self._m = np.asarray(mass, dtype=float)
+        self.index = pd.RangeIndex(len(self._m))
+
+    def __getitem__(self, k):
+        if k != 'mass':
+            raise KeyError(k)
+        return self._m
+
+
+def gen_static_error(rng):
+    """arguments of a direct call of trackpy.static_error"""
+    n = rng.randint(1, 8)
+    pool = [100.0, 250.5, 1e4, -5.0, -300.25, 0.0, float('nan'), 37.0, 1.0, float('inf'), -1e-3]
+    mass = [rng.choice(pool) if rng.random() < 0.6 else round(rng.uniform(-200, 900), 3) for _ in range(n)]
+    ndim = rng.choice([2, 2, 3])
+    r = rng.random()
+    if r < 0.35:
+        diameter = rng.choice([3, 5, 7, 9, 11]); noise_size = rng.choice([1, 1, 1.5, 2])
+    elif r < 0.65:
+        diameter = rng.choice([(9, 11), (5, 7), (11, 9), (7, 5)]) if ndim == 2 else rng.choice([(5, 7, 7), (3, 9, 9), (7, 9, 5)])
+        noise_size = rng.choice([1, 1.5])
+    elif r < 0.9:
+        diameter = rng.choice([5, 7, 9])
+        noise_size = rng.choice([(1, 1.5), (1.5, 1), (2, 1)]) if ndim == 2 else rng.choice([(1, 1, 1.5), (2, 1, 1)])
+    else:
+        diameter = (7,) * ndim                                   # equal tuple: still the isotropic branch
+        noise_size = (1.5,) * ndim
+    if rng.random() < 0.05:
+        noise_size = -1.0 if not isinstance(noise_size, tuple) else tuple(-x for x in noise_size)   # nonsense, still never negative
+    r = rng.random()
+    if r < 0.6:
+        noise = rng.choice([2.0, 0.5, 13.25, 0.0, float('nan'), -1.0])
+        frames = None
+    else:
+        frames = [rng.randint(0, 2) for _ in range(n)]
+        noise = {f: rng.choice([2.0, 0.5, 0.0, float('nan'), 7.5]) for f in range(3)}
+    return dict(mass=mass, diameter=list(diameter) if isinstance(diameter, tuple) else diameter,
+                noise_size=list(noise_size) if isinstance(noise_size, tuple) else noise_size,
+                ndim=ndim, noise=noise if frames is None else [noise[f] for f in range(3)], frames=frames)
